@@ -428,6 +428,13 @@ func menu() []dev {
 			})
 		}
 	}
+	// the actor mini-syntax "Name (email)": a name that itself contains parentheses is representable as long as an e-mail follows
+	add("pkg.supplier", "parenthesised-name+email", func(p, f *sbom.Node) {
+		p.Suppliers = []*sbom.Person{{Name: "ACME (UK) Ltd", IsOrg: true, Email: "info@acme.example"}}
+	})
+	add("pkg.originator", "parenthesised-name+email", func(p, f *sbom.Node) {
+		p.Originators = []*sbom.Person{{Name: "J. (Joe) Doe", Email: "jd@example.com"}}
+	})
 	sort.SliceStable(m, func(i, j int) bool { return m[i].Name < m[j].Name })
 	return m
 }
